@@ -80,6 +80,88 @@ def numeric_externs():
     return externs
 
 
+
+def pass_packing_automaton(repo, rep, rule):
+    """pass_packing.build_pass packs operators into a pass by walking from the last operator towards its producers under the table
+    `test_sequence`: (operator set, incompatible flags, flags to set, flags to clear). The table is a finite automaton over flag sets.
+    It is read from the source (flag values from the PassFlags class body) and explored from the empty state, with every row
+    applicable whenever its incompatible flags are clear (a superset of what first-match dispatch allows). Decided on the reachable
+    states: (1) an NPU pass has one main operation - every row that sets Npu and Main is refused once Main is set (memory-only and start-up
+    passes chain several operators by design); (2) a pass executed by the DMA
+    engine (Memcpy) holds that operator alone - the DMA applies no fused activation and writes no brick format, so an activation
+    packed behind a copy is never computed while its output is read as if it had been."""
+    import ast
+
+    from ..core import AnalysisError
+    from ..exprnorm import norm
+
+    m = repo.mod("pass_packing")
+    site = "ethosu/vela/pass_packing.py:test_sequence"
+    flags = {}
+    table = None
+    for n in m.tree.body:
+        if isinstance(n, ast.ClassDef) and n.name == "PassFlags":
+            for b in n.body:
+                if isinstance(b, ast.Assign) and isinstance(b.value, ast.Constant) and isinstance(b.value.value, int):
+                    flags[b.targets[0].id] = b.value.value
+        if isinstance(n, ast.Assign) and len(n.targets) == 1 and isinstance(n.targets[0], ast.Name) and n.targets[0].id == "test_sequence":
+            table = n.value
+    if not flags or table is None or not isinstance(table, ast.List):
+        raise AnalysisError("pass_packing: PassFlags / test_sequence not found")
+
+    def ev(e):
+        if isinstance(e, ast.BinOp) and isinstance(e.op, ast.BitOr):
+            return ev(e.left) | ev(e.right)
+        if isinstance(e, ast.Attribute) and isinstance(e.value, ast.Name) and e.value.id == "PassFlags" and e.attr in flags:
+            return flags[e.attr]
+        raise AnalysisError(f"pass_packing.test_sequence: flag expression `{norm(e)}` not evaluable")
+
+    rows = []
+    for el in table.elts:
+        if not isinstance(el, ast.Tuple) or len(el.elts) != 4:
+            raise AnalysisError("pass_packing.test_sequence: row is not a 4-tuple")
+        rows.append((str(norm(el.elts[0])), ev(el.elts[1]), ev(el.elts[2]), ev(el.elts[3])))
+    if len(rows) < 8:
+        raise AnalysisError(f"pass_packing.test_sequence: {len(rows)} rows")
+    names = {v: k for k, v in flags.items()}
+
+    def show(st):
+        return "|".join(names[b] for b in sorted(names) if b and st & b) or "Empty"
+
+    seen = {0: ()}
+    work = [0]
+    while work:
+        st = work.pop()
+        for nm, inc, sets, clr in rows:
+            if st & inc:
+                continue
+            st2 = (st & ~clr) | sets
+            if st2 not in seen:
+                seen[st2] = seen[st] + (nm,)
+                work.append(st2)
+    MAIN, MEMCPY = flags.get("Main"), flags.get("Memcpy")
+    if MAIN is None or MEMCPY is None:
+        raise AnalysisError("pass_packing.PassFlags: Main / Memcpy missing")
+    n = 0
+    for nm, inc, sets, clr in rows:
+        if sets & MAIN and sets & flags.get("Npu", 0):
+            n += 1
+            rep.check(bool(inc & MAIN), rule, site, f"row `{nm}` sets the main operation of an NPU pass and is refused once a main operation is packed", f"incompatible flags {show(inc)}")
+    mem_rows = [r for r in rows if r[2] & MEMCPY]
+    if not mem_rows:
+        raise AnalysisError("pass_packing.test_sequence: no row sets Memcpy")
+    for nm, inc, sets, clr in mem_rows:
+        before = sorted(st for st in seen if st and not (st & inc))
+        rep.check(not before, rule, site, f"row `{nm}` (DMA copy) only starts a pass: refused in each of the {len(seen) - 1} reachable non-empty states",
+                  "; ".join(f"accepted after {' <- '.join(seen[st])} (state {show(st)}): the operators packed so far run after the copy in the same pass, "
+                            "but the DMA applies no activation and writes a linear buffer - the consumer reads bytes that were never produced in the format it addresses" for st in before[:2]))
+    for st, path in seen.items():
+        if st & MEMCPY:
+            after = [nm for nm, inc, sets, clr in rows if not (st & inc)]
+            rep.check(not after, rule, site, f"nothing is packed in front of a DMA copy (state {show(st)})", f"rows {after} still accepted")
+    return n
+
+
 def round_half_away(repo, rep, rule):
     """numeric_util.round_away_zero is the single rounding primitive behind quantise_scale, the LUT generators and
     quantise_float32. Its rounding mode is a property of the function's shape: it touches its argument only through
